@@ -19,9 +19,9 @@ OPS = ("open_rx0_5", "open_rx0_3", "close_rx0", "open_tx_5", "open_tx_3", "aa_on
        "listen_on", "listen_off")
 
 
-def h_history(ctx, first, depth, aw):
+def h_history(ctx, first, depth, aw, driver="full", ops=OPS):
     clock = fresh_env(ctx)
-    radio, nrf = new_rf24(clock)
+    radio, nrf = new_lite(clock) if driver == "lite" else new_rf24(clock)
     radio.link = ScriptedLink(lambda n: True)
     nrf.address_length = aw
     ghost, mode, aa0 = None, None, True
@@ -29,7 +29,7 @@ def h_history(ctx, first, depth, aw):
     trace = []
     last_tx = None
     for step in range(depth):
-        op = first[step] if step < len(first) else OPS[ctx.choice("op%d" % step, len(OPS))]
+        op = first[step] if step < len(first) else ops[ctx.choice("op%d" % step, len(ops))]
         trace.append(op)
         mark = len(radio.log)
         cfg_before = radio.reg[0]
